@@ -56,7 +56,7 @@ func vpH_C09_refl_bare_all() {
 	}
 	vpReach("end")
 }
-func vpT_C09_refl_all()      { vpC09Refl(vpChoice(len(vpTypeNames))) }
+func vpT_C09_refl_all() { vpC09Refl(vpChoice(len(vpTypeNames))) }
 
 // items that are not vocabulary structs
 func vpH_C09_refl_misc() {
@@ -132,7 +132,13 @@ func vpH_C09_iddiff() {
 	c1, c2 := vpAlnum(), vpAlnum()
 	vpAssume(c1 != c2)
 	s1, s2 := string([]byte{c1}), string([]byte{c2})
-	switch vpChoice(6) {
+	switch vpChoice(8) {
+	case 6: // only the port differs
+		ida = IRI("https://h.ex:80" + s1 + "/p")
+		idb = IRI("https://h.ex:80" + s2 + "/p")
+	case 7: // an explicit port against none
+		ida = IRI("https://h.ex:8" + s1 + "/p")
+		idb = IRI("https://h.ex/p")
 	case 3: // a repeated query key: the values form a multiset
 		ida = IRI("https://h.ex/p?k=" + s1 + "&k=" + s1)
 		idb = IRI("https://h.ex/p?k=" + s1 + "&k=" + s2)
